@@ -276,4 +276,125 @@ Section ReplyObj.
     | RBad buf' ch' => BadReply buf' ch'
     | RLost => Lost
     end.
+
+  (* ---------- the setter chain as it is written in reply.py ----------
+     `set_message` above stores the pieces captured by message_esc_pattern
+     directly.  The code does not: the message setter hands match.group(1) -- a
+     string -- to the enhanced_status_code setter, which matches it against a
+     SECOND pattern, esc_pattern, and raises ValueError when that one does not
+     match.  Below both patterns are separate matchers and the chain is explicit;
+     proof/Reply_lemmas.v shows the chain never raises and computes `set_message`
+     (the two patterns agree). *)
+
+  (* message_esc_pattern.match(value) as the code uses it:
+     Some (match.group(1), value[match.end(0):]) *)
+  Definition msg_esc_group1 (v : list N) : option (list N * list N) :=
+    match match_esc v with
+    | Some (k, subj, det, rest) => Some (k :: 46 :: subj ++ 46 :: det, rest)
+    | None => None
+    end.
+
+  (* `$` (no MULTILINE): at the end, or before one final line feed *)
+  Definition at_dollar (s : list N) : bool :=
+    match s with
+    | [] => true
+    | [c] => c =? 10
+    | _ => false
+    end.
+
+  (* esc_pattern = ^([245])\.(\d\d?\d?)\.(\d\d?\d?)$  : match.groups() *)
+  Definition match_esc_pattern (v : list N) : option (N * list N * list N) :=
+    match v with
+    | k :: dot :: s =>
+        if is245 k && (dot =? 46) then
+          match take_digits s with
+          | Some (subj, s1) =>
+              match s1 with
+              | dot2 :: s2 =>
+                  if dot2 =? 46 then
+                    match take_digits s2 with
+                    | Some (det, s3) => if at_dollar s3 then Some (k, subj, det) else None
+                    | None => None
+                    end
+                  else None
+              | [] => None
+              end
+          | None => None
+          end
+        else None
+    | _ => None
+    end.
+
+  (* code_pattern = ^[12345]\d\d$ *)
+  Definition match_code_pattern (c : list N) : bool :=
+    match c with
+    | a :: b :: d :: tl => (49 <=? a) && (a <=? 53) && udigit b && udigit d && at_dollar tl
+    | _ => false
+    end.
+
+  (* enhanced_status_code setter; None = raise ValueError('Invalid ENHANCEDSTATUSCODES string').
+     A falsy value (None, '') is stored as it is: the getter treats both alike. *)
+  Definition esc_setter (r : reply) (value : list N) : option reply :=
+    match value with
+    | [] => Some (mkReply (r_code r) EscNone (r_msg r))
+    | _ =>
+        match match_esc_pattern value with
+        | Some (k, subj, det) => Some (mkReply (r_code r) (EscSome k subj det) (r_msg r))
+        | None => None
+        end
+    end.
+
+  (* message setter, statement by statement; None = the ValueError of esc_setter escapes *)
+  Definition set_message_chk (r : reply) (v : list N) : option reply :=
+    match v with
+    | [] => Some (mkReply (r_code r) (match r_esc r with EscSome _ _ _ => EscNone | e => e end) [])
+    | _ =>
+        match (if peel_allowed (r_code r) then msg_esc_group1 v else None) with
+        | Some (g1, rest) =>
+            (* self._message = value[match.end(0):]; self.enhanced_status_code = match.group(1) *)
+            esc_setter (mkReply (r_code r) (r_esc r) rest) g1
+        | None => Some (mkReply (r_code r) (match r_esc r with EscSome _ _ _ => EscNone | e => e end) v)
+        end
+    end.
+
+  (* Reply.__init__(code, message): code setter, enhanced_status_code = None, message setter.
+     code [] stands for None / '' (stored as it is). *)
+  Inductive ctor_res :=
+  | CtorOk (r : reply)
+  | CtorBadCode          (* ValueError('Invalid SMTP reply code') *)
+  | CtorBadEsc.          (* ValueError('Invalid ENHANCEDSTATUSCODES string') *)
+
+  Definition ctor_code_ok (code : list N) : bool :=
+    match code with [] => true | _ => match_code_pattern code end.
+
+  Definition reply_ctor (code v : list N) : ctor_res :=
+    if ctor_code_ok code then
+      match esc_setter (mkReply code EscNone []) [] with
+      | Some r0 =>
+          match set_message_chk r0 v with
+          | Some r => CtorOk r
+          | None => CtorBadEsc
+          end
+      | None => CtorBadEsc
+      end
+    else CtorBadCode.
+
+  (* Reply.recv into a fresh Reply object, through the setter chain;
+     None = ValueError('Invalid ENHANCEDSTATUSCODES string') instead of a reply or BadReply *)
+  Definition reply_recv_chk (buf : bytes) (chunks : list bytes) : option recv_out :=
+    match recv_reply buf chunks with
+    | ROk c body buf' ch' =>
+        match utf8_dec body with
+        | Some t =>
+            if code_ok c then
+              match set_message_chk (mkReply c EscNone []) t with
+              | Some r => Some (GotReply r buf' ch')
+              | None => None
+              end
+            else Some BadCode
+        | None => Some (BadReply buf' ch')
+        end
+    | RBad buf' ch' => Some (BadReply buf' ch')
+    | RLost => Some Lost
+    end.
 End ReplyObj.
